@@ -1,6 +1,6 @@
 (* Instance of RG.Locks for the lock protocol regenerated from /repo/ruleguard (Gen_Locks.v): re-proved on every check. *)
 From Coq Require Import List NArith String Bool.
-From RG.Locks Require Import Model Sites Cache Confine Progress.
+From RG.Locks Require Import Model Sites Cache Confine Progress Frozen.
 From RGW Require Import Gen_Locks.
 Import ListNotations.
 Local Open Scope N_scope.
@@ -227,6 +227,11 @@ Lemma run_extcalls_read_only :
   && existsb (fun x : string * string * string => String.eqb (snd (fst x)) "regexp.Regexp") gen_run_extcalls = true.
 Proof. vm_compute. reflexivity. Qed.
 
+(* a run stays on the goroutine of its caller: no run-reachable function of the scanned packages starts a goroutine (the
+   per-run owners of run_state_confined are then accessed by one goroutine only) *)
+Lemma run_spawns_no_goroutine : gen_run_gostmts = [].
+Proof. vm_compute. reflexivity. Qed.
+
 (* the scan looked into the packages that hold the Load-time objects' methods *)
 Lemma scan_covers :
   forallb (fun n => str_in n gen_scanned_pkgs)
@@ -234,6 +239,39 @@ Lemma scan_covers :
   && existsb (fun w : string * string * string => String.eqb (snd (fst w)) "typematch.MatcherState") gen_run_writes
   && existsb (fun w : string * string * string => String.eqb (snd (fst w)) "quasigo.ValueStack") gen_run_writes = true.
 Proof. vm_compute. reflexivity. Qed.
+
+(* ---------------------------------------------------------------- the Load-time objects inside the lock model
+   one Frozen field per Load-time struct type (numbered from lt_base, above the fields of engine / engineState): a thread of
+   the real system is an extracted path with reads of such objects in between; the write-site scan shows that there is no
+   write *)
+Definition lt_base : N := 1000.
+
+Fixpoint index_of (s : string) (l : list string) (i : N) : option N :=
+  match l with
+  | [] => None
+  | x :: r => if String.eqb s x then Some i else index_of s r (i + 1)
+  end.
+
+Definition lt_field (o : string) : option N := option_map (N.add lt_base) (index_of o gen_loadtime_types 0).
+
+Definition guard_lt (f : N) : fclass := if N.leb lt_base f then Frozen else guard f.
+
+Lemma guard_lt_extends : forallb (fun e : N * string => N.ltb (fst e) lt_base) gen_fields = true.
+Proof. vm_compute. reflexivity. Qed.
+
+Lemma sites_disciplined_lt : disciplined guard_lt run_progs = true.
+Proof. vm_compute. reflexivity. Qed.
+
+Definition lt_write_sites : list (string * string * string) :=
+  filter (fun w : string * string * string => match lt_field (snd (fst w)) with Some _ => true | None => false end) gen_run_writes.
+
+Lemma no_loadtime_write_sites : lt_write_sites = [].
+Proof. vm_compute. reflexivity. Qed.
+
+Theorem run_with_loadtime_reads_race_free :
+  forall progs, Forall (fun q => exists p, In p run_progs /\ with_frozen_reads guard_lt p q) progs ->
+  forall s, reachable (init progs) s -> ~ race s.
+Proof. apply (frozen_reads_race_free guard_lt run_progs sites_disciplined_lt). Qed.
 
 (* Run treats what the caller hands in as read-only: no write site outside load-only code stores through a *RunContext
    or *Engine (several goroutines may share one RunContext), nor into go/ast, go/types or go/token objects *)
